@@ -36,6 +36,7 @@ type pipe struct {
 	m            *mapper.MetricMapper
 	ex           *exporter.Exporter
 	flags        int
+	corrupt      bool
 	logger       *slog.Logger
 	eventsAct    *prometheus.CounterVec
 	unmapped     prometheus.Counter
@@ -229,6 +230,13 @@ func (p *pipe) input(l string) (res string) {
 		}
 	}()
 	evs := newParser(p.flags).LineToEvents(l, *p.sampleErrors, p.samples, p.tagErrors, p.tagsRecv, p.logger)
+	if p.corrupt {
+		for _, e := range evs {
+			for k, v := range e.Labels() {
+				e.Labels()[k] = strings.ReplaceAll(v, "!ff", "\xff")
+			}
+		}
+	}
 	ch := make(chan event.Events, 1)
 	ch <- evs
 	close(ch)
@@ -299,8 +307,11 @@ func pipelineCase(c string) (res string) {
 			r, o := ctx.loadOp(f, oi)
 			results = append(results, r)
 			oracle = append(oracle, o...)
-		case "I":
+		case "I", "X":
+			// X: the events of the line reach the exporter without having come through the parser's validity check - in every
+			// label value the three characters "!ff" stand for the byte 0xff (not valid UTF-8)
 			l := unhex(f[1])
+			p.corrupt = f[0] == "X"
 			for _, tok := range strings.Fields(floatOracle(l)) {
 				if !floatSeen[tok] {
 					floatSeen[tok] = true
